@@ -248,6 +248,10 @@ def check(pid, tier, seed, wd, only, t0):
     known = [k for k in load_known() if k.get('property') == pid and k.get('status', 'open') == 'open']
     known_ids = {k['id']: k for k in known}
     jobs = mod.jobs(tier)
+    # per-job time budgets were measured on an idle 16-core machine; the thorough tier (many more jobs competing for the cores) and a
+    # loaded machine get a multiple of them. Exceeding a budget is INCONCLUSIVE (exit 3), never a pass.
+    scale = float(os.environ.get('VERIF_TIMEOUT_SCALE', '3' if tier == 'thorough' else '1.5'))
+    for j in jobs: j.timeout = int(j.timeout * scale)
     # expand known findings: every job gets all listed findings in 'exclude' mode; one extra 'only' job per finding
     alljobs = []
     for j in jobs:
